@@ -103,6 +103,10 @@ pub fn case_xml(c: &Case) -> String {
             None => {}
         }
     }
+    // (kind_a 6..11: the same shapes, and the connector holds a <title>: it is a connector all the same)
+    if c.kind_a >= 6 {
+        e.kids.push(X::Raw("<title>link</title>".into()));
+    }
     els.push(e);
     gen::svg_root(els).to_xml()
 }
@@ -152,7 +156,7 @@ fn placement() -> impl Strategy<Value = ([f64; 4], [f64; 4])> {
 }
 
 fn fam_connectors(_t: Tier) -> BoxedStrategy<Case> {
-    (0u8..6, 0u8..6, placement(), 0u8..4, any::<u8>())
+    (0u8..12, 0u8..6, placement(), 0u8..4, any::<u8>())
         .prop_flat_map(|(ka, kb, (a, b), conn, off)| {
             // named locations are only generated for straight lines and corner polylines; for the corner kind only edge
             // locations (t r b l and edge offsets) since a corner location has no direction
